@@ -26,6 +26,9 @@ def main():
     out = os.path.join(V, "seeded", "MATRIX.md")
     if "--only" in args:
         i = args.index("--only"); only = re.compile(args[i + 1]); del args[i:i + 2]
+    props = None
+    if "--props" in args:
+        i = args.index("--props"); props = set(args[i + 1].split(",")); del args[i:i + 2]
     if "--out" in args:
         i = args.index("--out"); out = args[i + 1]; del args[i:i + 2]
     rows = []
@@ -40,6 +43,8 @@ def main():
             continue                      # proposed repairs, not breaking changes
         p = prop_of(name)
         if not p:
+            continue
+        if props is not None and p not in props:
             continue
         meta = {}
         mp = os.path.join(d, "meta.json")
